@@ -809,12 +809,24 @@ func (t *Teamserver) EventAgentMark(AgentID, Mark string) {
 	t.EventBroadcast("", pk)
 }
 
-// EventListenerErrorOnly tells the operators that a listener request failed, without touching
-// a running listener that happens to have the same name.
-func (t *Teamserver) EventListenerErrorOnly(ListenerName string, Error error) {
-	var pk = events.Listener.ListenerError("", ListenerName, Error)
+// EventListenerErrorOnly tells the operator who asked that a listener request failed. nobody
+// else is told: a client marks the listener of that name as failed when it is addressed, and
+// here that is a running listener that merely has the name the request wanted.
+func (t *Teamserver) EventListenerErrorOnly(User string, ListenerName string, Error error) {
+	var pk = events.Listener.ListenerError(User, ListenerName, Error)
 
-	t.EventBroadcast("", pk)
+	t.Clients.Range(func(key, value any) bool {
+		id := key.(string)
+		client := value.(*Client)
+		if client.Authenticated && client.Username == User {
+			err := t.SendEvent(id, pk)
+			if err != nil {
+				logger.Error("Failed to send Event: " + err.Error())
+			}
+			return false
+		}
+		return true
+	})
 }
 
 func (t *Teamserver) EventListenerError(ListenerName string, Error error) {
